@@ -8,6 +8,7 @@ import Model.C05.P2p
 import Model.Common.Sha256
 import Model.C08.Parse
 import Model.C19.Fuel
+import Model.C19.TapTree
 import Generated.VarInt
 import Generated.Wire
 import Generated.Limits
@@ -61,6 +62,14 @@ def handle : List String → String
     match parseLetters text.toList with
     | some t => s!"ok {showTree t} depth={t.depth} leaves={t.leaves}"
     | none => "err refused"
+  | ["treehelper", text] =>
+    -- the letter tree (read WITHOUT a depth bound: the bound under test is tree_helper's) as the Python value, then the model
+    match parseTreeAll braces 1000000 letterLeaf text.toList with
+    | none => "bad-op"
+    | some t =>
+      match TapTree.treeHelper (TapTree.ofLetters t) with
+      | .ok s => s!"ok depth={s.depth} leaves={s.leaves}"
+      | .error e => s!"err {e.name}"
   | ["counted.witness", hex] =>
     match fromHex? hex with
     | none => "bad-op"
